@@ -1,203 +1,1478 @@
 """Translator (tie T) for C05/C06: regenerates lean/TinyVerif/Gen/ThreadSites.lean from the *current*
-/repo/tiny-std/src/thread/spawn.rs (+ sync.rs / futex.rs for the wait's key kind):
-  * the atomic / futex call sites of `join`, `Drop::drop`, the thread epilogue closure inside `spawn`, and
-    `on_panic`, with literal operands and memory orderings;
-  * the ordered list of protocol-relevant operations of `spawn` (set-up, the epilogue closure, both error
-    paths), of `on_panic`, of `join` and `drop`, as small labels found by position in the function bodies;
-  * the system calls of the `__clone` trampoline (x86-64 `mov al, N` immediates) and of the panic epilogue asm;
-  * `UNFINISHED`, and the model parameters derived from the above (does spawn inspect `__clone`'s result and
-    undo its set-up; does it undo after a failed mmap; the values join/drop wait on; is the clear-tid address
-    reset before the losing thread frees the block).
-Props/C05.lean re-checks by `decide` that the lists have the shape the hand-written model assumes and that
-the derived parameters are the ones the proofs need.  Stdlib only."""
+/repo/tiny-std/src/thread/spawn.rs (+ rusl/src/futex.rs for the wait's key kind).
+
+The extraction is *semantic*, not positional:
+  * spawn.rs is tokenised (comments, strings, attributes, the aarch64 / test items removed) and every function of the
+    file is collected with its owner (`impl Tsm`, `impl Drop for JoinHandle`), parameters and return type;
+  * calls to functions defined in the same file that (transitively) perform a protocol-relevant primitive are
+    INLINED into their callers with parameter substitution (`release_unstarted(..)`, `Tsm::into_value`,
+    `free_tls`, `wait_for_exit`, `Tsm::init`, `onwed_split_fn_once` ...), so that what counts is what a function
+    does, not which helper does it;
+  * operations are recognised by what they do: an atomic operation's location is the type of the accessor in its
+    receiver chain (`&AtomicBool` = hand-over flag, `&AtomicU32` = exit futex), a `dealloc` is the thread-local
+    block's when its layout is `ThreadLocalStorage`'s and the shared block's when it is `Tsm`'s own, the slot is
+    read / written through the `value_offset` address, named constants are resolved to numbers, ...;
+  * each function is parsed into its control structure (if / if let / match / let-else / loop / while / return / `?`)
+    and all *paths* are enumerated; a branch is tagged by what its condition decides (`cas_lost`/`cas_won`,
+    `mmap_err`/`mmap_ok`, `clone_neg`/`clone_nonneg`, `is_thread`/`is_main`) in whichever equivalent form it is
+    written (`if x.is_err()`, `match x { Err(_) => .. }`, `if !x.is_ok()`, a bool bound first, inverted tails ...);
+    the exit-wait loop is recognised in its `while load == V { wait }` and `loop { if load != V { break } wait }` forms;
+  * what the extractor does not understand is tagged with a name ending in `?` — never guessed.
+
+The model parameters (`Cfg`) are predicates over those path lists (the same predicates are restated in
+Props/C05.lean and re-checked by `decide` there: `gen_params_from_paths`).  A parameter whose paths are not
+understood is `None` here: checks/c05.py then takes it from what the running code does (fault-injected /
+scheduled probe runs under strace) and says so in the evidence; the proof obligation that the parameters are
+the good ones (`gen_cfg_good`) is never skipped.  Stdlib only."""
 import os
 import re
 
 from . import common as C
-from . import sync_extract as S
 
-SPAWN_LABELS = [
-    ("tsm_init", r"Tsm::init\b"),
-    ("call_func", r"\bfunc\(\)"),
-    ("write_slot", r"\(\*tsm\.value_mut\(\)\)\s*=\s*Some\("),
-    ("cas", r"\.compare_exchange\("),
-    ("set_tid_0", r"syscall!\(\s*SET_TID_ADDRESS\s*,\s*0\s*\)"),
-    ("drop_value", r"drop_in_place\(\s*tsm\.value_mut::<T>\(\)\s*\)"),
-    ("tsm_dealloc", r"\btsm\.dealloc\(\)"),
-    ("tls_dealloc", r"\bdealloc\(\s*get_tls_ptr\(\)"),
-    ("box_closure", r"onwed_split_fn_once\(df\)"),
-    ("mmap", r"(?<![a-z_])mmap\("),
-    ("drop_closure", r"\bdrop_fn\(fn_caller\)"),
-    ("tls_box", r"Box::new\(ThreadLocalStorage"),
-    ("clone", r"__clone\("),
-    ("check_clone", r"if\s+clone_res\s*<\s*0"),
-    ("drop_tls", r"drop\(Box::from_raw\(tls\)\)"),
-    ("munmap", r"(?<![a-z_])munmap\(\s*map_ptr"),
-    ("ret_err", r"return\s+Err\("),
-    ("ok_handle", r"Ok\(JoinHandle"),
-]
-PANIC_LABELS = [
-    ("tls_read", r"\btls\.read\(\)"),
-    ("tls_dealloc", r"\bdealloc\(\s*tls\.cast\(\)"),
-    ("cas", r"\.compare_exchange\("),
-    ("set_tid_0", r"syscall!\(\s*SET_TID_ADDRESS\s*,\s*0\s*\)"),
-    ("tsm_dealloc", r"\btsm\.dealloc\(\)"),
-    ("asm_munmap", r'in\("rax"\)\s*MUNMAP'),
-    ("asm_exit", r'"mov al, 60"'),
-]
-JOIN_LABELS = [
-    ("wait_once", r"(?<![a-z_])futex_wait_fast\("),
-    ("wait", r"wait_for_exit\("),
-    ("read_slot", r"get_value::<T>\(\)\s*\.into_inner\(\)"),
-    ("tsm_dealloc", r"\.tsm\.dealloc\(\)"),
-    ("forget", r"mem::forget\(self\)"),
-]
-DROP_LABELS = [
-    ("cas", r"\.compare_exchange\("),
-    ("is_err", r"\.is_err\(\)"),
-    ("wait_once", r"(?<![a-z_])futex_wait_fast\("),
-    ("wait", r"wait_for_exit\("),
-    ("drop_value", r"drop_in_place\(\s*self\.tsm\.value_mut::<T>\(\)\s*\)"),
-    ("tsm_dealloc", r"\.tsm\.dealloc\(\)"),
-]
+ORD = {"Relaxed": "relaxed", "Acquire": "acquire", "Release": "release", "AcqRel": "acqrel", "SeqCst": "seqcst"}
+
+# ------------------------------------------------------------------ tokens
+
+TOK_RE = re.compile(r'''
+   (?P<ws>\s+)
+ | (?P<lc>//[^\n]*)
+ | (?P<bc>/\*.*?\*/)
+ | (?P<rstr>b?r(?P<h>\#*)".*?"(?P=h))
+ | (?P<str>b?"(?:\\.|[^"\\])*")
+ | (?P<chr>b?'(?:\\.[^']*|[^'\\])')
+ | (?P<life>'[A-Za-z_][A-Za-z_0-9]*)
+ | (?P<id>[A-Za-z_][A-Za-z_0-9]*)
+ | (?P<num>\d[\dA-Za-z_]*(?:\.\d+)?)
+ | (?P<p>::|->|=>|==|!=|<=|>=|&&|\|\||\.\.=|\.\.|[-+*/%^&|!<>=.,;:\#?@$~(){}\[\]])
+''', re.X | re.S)
+
+OPEN = {"(": ")", "[": "]", "{": "}"}
+CLOSE = {")": "(", "]": "[", "}": "{"}
 
 
-def ops(body, labels):
-    found = []
-    for name, rx in labels:
-        for m in re.finditer(rx, body):
-            found.append((m.start(), name))
-    return [n for _, n in sorted(found)]
+class T:
+    """a token: kind (id num str chr life p blk), text, provenance (the chain of inlined functions it comes from)"""
+    __slots__ = ("k", "s", "prov")
+
+    def __init__(self, k, s, prov=()):
+        self.k, self.s, self.prov = k, s, prov
+
+    def __repr__(self):
+        return self.s
 
 
-def fn_bodies(src):
-    out = {}
-    for name, body in S.functions(src):
-        out.setdefault(name, []).append(body)
+def tokenize(src):
+    out, i = [], 0
+    while i < len(src):
+        m = TOK_RE.match(src, i)
+        if not m:
+            i += 1
+            continue
+        k = m.lastgroup
+        if k == "h":
+            k = "rstr"
+        if k not in ("ws", "lc", "bc"):
+            out.append(T("str" if k == "rstr" else k, m.group(0)))
+        i = m.end()
     return out
 
 
-def sites(fname, body):
-    out = []
-    for s in S.sites_of(fname, body):
-        recv = ""
-        if s["op"] == "compare_exchange":
-            m = re.search(r"get_(sync|futex)\(\)\s*\.\s*compare_exchange", body)
-            recv = m.group(1) if m else "?"
-            s["loc"] = recv
-        if s["op"] == "futex_wait_fast":
-            m = re.search(r"futex_wait_fast\(\s*(?:self\.tsm\.get_(futex|sync)\(\)|futex)\s*,\s*([A-Za-z_0-9]+)\s*\)", body)
-            s["loc"] = (m.group(1) or "futex") if m else "?"
-            s["vals"] = [m.group(2)] if m else ["?"]
-        ords = [S.ORD[v.split("::")[-1]] for v in s["vals"] if v.split("::")[-1] in S.ORD]
-        if ords:
-            s["ords"] = s["ords"] + ords
-            s["vals"] = [v for v in s["vals"] if v.split("::")[-1] not in S.ORD]
-        out.append(s)
+def wordy(t):
+    return t.k in ("id", "num", "life")
+
+
+def compact(toks):
+    out, prev = [], None
+    for t in toks:
+        if prev is not None and wordy(prev) and wordy(t):
+            out.append(" ")
+        out.append(t.s)
+        prev = t
+    return "".join(out)
+
+
+def is_open(t):
+    return t.k in ("p", "blk") and t.s in OPEN
+
+
+def is_close(t):
+    return t.k == "p" and t.s in CLOSE
+
+
+def match_fwd(toks, i):
+    """toks[i] opens a bracket: index of its partner (len(toks) if unbalanced)"""
+    depth = 0
+    for j in range(i, len(toks)):
+        if is_open(toks[j]):
+            depth += 1
+        elif is_close(toks[j]):
+            depth -= 1
+            if depth == 0:
+                return j
+    return len(toks)
+
+
+def match_back(toks, i):
+    depth = 0
+    for j in range(i, -1, -1):
+        if is_close(toks[j]):
+            depth += 1
+        elif is_open(toks[j]):
+            depth -= 1
+            if depth == 0:
+                return j
+    return -1
+
+
+def angle_fwd(toks, i):
+    """toks[i] is `<` of a generic list: index of the matching `>` (`->` is its own token)"""
+    depth = 0
+    j = i
+    while j < len(toks):
+        s = toks[j].s
+        if is_open(toks[j]):
+            j = match_fwd(toks, j)
+        elif s == "<":
+            depth += 1
+        elif s == ">":
+            depth -= 1
+            if depth == 0:
+                return j
+        j += 1
+    return len(toks)
+
+
+def angle_back(toks, i):
+    """toks[i] is `>` closing a generic list: index of its `<`"""
+    depth = 0
+    j = i
+    while j >= 0:
+        s = toks[j].s
+        if is_close(toks[j]):
+            j = match_back(toks, j)
+        elif s == ">" and toks[j].k == "p":
+            depth += 1
+        elif s == "<":
+            depth -= 1
+            if depth == 0:
+                return j
+        j -= 1
+    return -1
+
+
+def split_top(toks, sep=",", angles=False):
+    out, cur, j = [], [], 0
+    while j < len(toks):
+        t = toks[j]
+        if is_open(t):
+            k = match_fwd(toks, j)
+            cur += toks[j:k + 1]
+            j = k + 1
+            continue
+        if angles and t.s == "<" and t.k == "p":
+            k = angle_fwd(toks, j)
+            cur += toks[j:k + 1]
+            j = k + 1
+            continue
+        if t.k == "p" and t.s == sep:
+            out.append(cur)
+            cur = []
+        else:
+            cur.append(t)
+        j += 1
+    if cur:
+        out.append(cur)
     return out
 
 
-def asm_immediates(src, start_marker, stop_marker):
-    i = src.find(start_marker)
-    if i < 0:
-        return []
-    j = src.find(stop_marker, i)
-    seg = src[i:j if j > 0 else len(src)]
-    seg = "\n".join(l for l in seg.splitlines() if not l.strip().startswith("//"))
-    return [int(x) for x in re.findall(r'"mov al, (\d+)"', seg)]
+def find_top(toks, pred, start=0):
+    """first index >= start at bracket depth 0 (relative to start) with pred(tok)"""
+    j = start
+    while j < len(toks):
+        t = toks[j]
+        if pred(t):
+            return j
+        if is_open(t):
+            j = match_fwd(toks, j)
+        j += 1
+    return len(toks)
 
 
-def value_of(tok, consts):
-    if tok is None:
+# ------------------------------------------------------------------ attributes, cfg'd-out items
+
+def item_end(toks, j):
+    """index one past the item / statement that starts at j"""
+    while j < len(toks):
+        t = toks[j]
+        if is_open(t):
+            k = match_fwd(toks, j)
+            if t.s == "{":
+                nxt = toks[k + 1].s if k + 1 < len(toks) else ""
+                if nxt == "else" or nxt in (".", "?"):
+                    j = k + 1
+                    continue
+                return k + 2 if nxt == ";" else k + 1
+            j = k + 1
+            continue
+        if t.s == ";" and t.k == "p":
+            return j + 1
+        j += 1
+    return len(toks)
+
+
+def strip_attrs(toks):
+    """removes every attribute; an item under cfg(test) / cfg(target_arch = "aarch64") goes with it (x86-64 is analysed)"""
+    out, i = [], 0
+    while i < len(toks):
+        t = toks[i]
+        if t.s == "#" and t.k == "p" and i + 1 < len(toks) and (toks[i + 1].s == "[" or (toks[i + 1].s == "!" and i + 2 < len(toks) and toks[i + 2].s == "[")):
+            b = i + 1 if toks[i + 1].s == "[" else i + 2
+            e = match_fwd(toks, b)
+            body = compact(toks[b + 1:e])
+            i = e + 1
+            if re.match(r'cfg\((test|target_arch="aarch64")\)$', body):
+                # further attributes of the same item, then the item
+                while i + 1 < len(toks) and toks[i].s == "#" and toks[i + 1].s == "[":
+                    i = match_fwd(toks, i + 1) + 1
+                i = item_end(toks, i)
+            continue
+        out.append(t)
+        i += 1
+    return out
+
+
+# ------------------------------------------------------------------ functions of the file
+
+class Fn:
+    def __init__(self, name, owner, trait, params, has_self, ret, body):
+        self.name, self.owner, self.trait, self.params, self.has_self, self.ret, self.body = name, owner, trait, params, has_self, ret, body
+
+    @property
+    def qual(self):
+        return (self.owner + "::" if self.owner else "") + self.name
+
+
+def parse_fns(toks, owner=None, trait=None, out=None):
+    out = [] if out is None else out
+    i = 0
+    while i < len(toks):
+        t = toks[i]
+        if t.k == "id" and t.s == "impl":
+            j = find_top(toks, lambda x: x.s == "{", i + 1)
+            head = toks[i + 1:j]
+            if head and head[0].s == "<":
+                head = head[angle_fwd(head, 0) + 1:]
+            names = [x.s for x in head if x.k == "id"]
+            tr, ow = None, (names[0] if names else None)
+            if "for" in names:
+                k = names.index("for")
+                tr, ow = (names[0] if k > 0 else None), (names[k + 1] if k + 1 < len(names) else None)
+            e = match_fwd(toks, j)
+            parse_fns(toks[j + 1:e], ow, tr, out)
+            i = e + 1
+            continue
+        if t.k == "id" and t.s in ("mod", "extern") and owner is None and not any(x.k == "id" and x.s == "fn" for x in toks[i + 1:i + 3]):
+            j = find_top(toks, lambda x: x.s in ("{", ";"), i + 1)
+            if j < len(toks) and toks[j].s == "{":
+                e = match_fwd(toks, j)
+                parse_fns(toks[j + 1:e], None, None, out)
+                i = e + 1
+                continue
+            i = j + 1
+            continue
+        if t.k == "id" and t.s == "fn" and i + 1 < len(toks) and toks[i + 1].k == "id":
+            name = toks[i + 1].s
+            j = i + 2
+            if j < len(toks) and toks[j].s == "<":
+                j = angle_fwd(toks, j) + 1
+            if j >= len(toks) or toks[j].s != "(":
+                i += 1
+                continue
+            pe = match_fwd(toks, j)
+            params, has_self = [], False
+            for p in split_top(toks[j + 1:pe], ",", angles=True):
+                c = find_top(p, lambda x: x.s == ":")
+                pat = p[:c]
+                if any(x.s == "self" for x in pat):
+                    has_self = True
+                    continue
+                ids = [x.s for x in pat if x.k == "id" and x.s not in ("mut", "ref")]
+                params.append(ids[-1] if len(ids) == 1 else None)
+            k = find_top(toks, lambda x: x.s in ("{", ";"), pe + 1)
+            ret = compact(toks[pe + 1:k])
+            if k < len(toks) and toks[k].s == "{":
+                e = match_fwd(toks, k)
+                out.append(Fn(name, owner, trait, params, has_self, ret, toks[k + 1:e]))
+                i = e + 1
+            else:
+                i = k + 1
+            continue
+        if is_open(t):
+            i = match_fwd(toks, i) + 1
+            continue
+        i += 1
+    return out
+
+
+# what makes a function worth inlining: it performs (or reaches) one of the protocol's primitives
+PRIM_RE = re.compile(r"\.compare_exchange|\.load\(|\.store\(|\.swap\(|\.fetch_|futex_wait|(?<![\w.])dealloc\(|(?<![\w.])alloc(?:_zeroed)?\(|SET_TID_ADDRESS|"
+                     r"drop_in_place|(?<![\w.])mmap\(|(?<![\w.])munmap\(|__clone\(|Box::new\(|Box::from_raw\(|\.read\(\)|\.write\(|mem::forget|ManuallyDrop")
+
+
+class File:
+    def __init__(self, src):
+        self.toks = strip_attrs(tokenize(src))
+        self.fns = parse_fns(self.toks)
+        self.by_name = {}
+        for f in self.fns:
+            self.by_name.setdefault(f.name, []).append(f)
+        self.consts = {}
+        txt = compact(self.toks)
+        for m in re.finditer(r"const (\w+):(?:u32|usize|i32|u64)=([^;]+);", txt):
+            self.consts[m.group(1)] = m.group(2)
+        # fixpoint: functions that reach a primitive
+        self.interesting = set()
+        changed = True
+        while changed:
+            changed = False
+            for f in self.fns:
+                if id(f) in self.interesting:
+                    continue
+                if PRIM_RE.search(compact(f.body)) or any(self.callee(f.body, i, f) is not None and id(self.callee(f.body, i, f)[0]) in self.interesting
+                                                          for i in range(len(f.body)) if f.body[i].k == "id" and f.body[i].s in self.by_name):
+                    self.interesting.add(id(f))
+                    changed = True
+
+    def fn(self, name, owner=None, trait=None):
+        for f in self.by_name.get(name, []):
+            if (owner is None or f.owner == owner) and (trait is None or f.trait == trait):
+                return f
         return None
-    if re.fullmatch(r"\d+", tok):
-        return int(tok)
-    return consts.get(tok)
+
+    def value_of(self, tok, depth=0):
+        """numeric value of a literal / named constant of the file; None when it cannot be resolved"""
+        if tok is None or depth > 4:
+            return None
+        tok = tok.strip()
+        while tok.startswith("(") and tok.endswith(")"):
+            tok = tok[1:-1]
+        tok = re.sub(r"^(Self|crate|self|super)::", "", tok)
+        m = re.fullmatch(r"(0x[0-9a-fA-F_]+|\d[\d_]*)(?:_?(?:u|i)(?:8|16|32|64|size))?", tok)
+        if m:
+            return int(m.group(1).replace("_", ""), 0)
+        if tok in self.consts:
+            return self.value_of(self.consts[tok], depth + 1)
+        return None
+
+    # ---- call sites of same-file functions
+    def callee(self, toks, i, cur_fn=None):
+        """toks[i] is an identifier naming a function of the file.  -> (Fn, start index of the call expression,
+        index of `(`, receiver tokens | None) when this is a call that resolves to it, else None"""
+        cands = self.by_name.get(toks[i].s)
+        if not cands:
+            return None
+        j = i + 1
+        if j + 1 < len(toks) and toks[j].s == "::" and toks[j + 1].s == "<":
+            j = angle_fwd(toks, j + 1) + 1
+        if j >= len(toks) or toks[j].s != "(":
+            return None
+        prev = toks[i - 1] if i > 0 else None
+        if prev is not None and prev.k == "id" and prev.s == "fn":
+            return None
+        if prev is not None and prev.s == "." and prev.k == "p":
+            f = next((c for c in cands if c.has_self), None)
+            if f is None:
+                return None
+            s = recv_start(toks, i - 2)
+            return f, s, j, toks[s:i - 1]
+        if prev is not None and prev.s == "::":
+            q = toks[i - 2] if i >= 2 else None
+            if q is None or q.k != "id":
+                return None
+            own = cur_fn.owner if (q.s == "Self" and cur_fn is not None) else q.s
+            f = next((c for c in cands if c.owner == own), None)
+            if f is None:
+                return None
+            s = i - 2
+            while s >= 2 and toks[s - 1].s == "::" and toks[s - 2].k == "id":
+                s -= 2
+            return f, s, j, None
+        f = next((c for c in cands if c.owner is None and not c.has_self), None)
+        if f is None:
+            return None
+        return f, i, j, None
 
 
-def generate(repo=None):
+def recv_start(toks, e):
+    """toks[e] is the last token of a postfix expression: index of its first token"""
+    j = e
+    while j >= 0:
+        t = toks[j]
+        if is_close(t):
+            j = match_back(toks, j)
+            if j < 0:
+                return 0
+            # a call / index: what precedes is its callee expression (possibly with a turbofish)
+            if j >= 1 and toks[j - 1].s == ">" and toks[j - 1].k == "p":
+                a = angle_back(toks, j - 1)
+                if a >= 2 and toks[a - 1].s == "::":
+                    j = a - 2
+                    continue
+            if j >= 1 and (toks[j - 1].k == "id" and toks[j - 1].s not in KEYWORDS):
+                j -= 1
+                continue
+            return j
+        if t.k in ("id", "num") or t.s == "?":
+            if j >= 1 and toks[j - 1].s in (".", "::") and toks[j - 1].k == "p":
+                j -= 2
+                continue
+            return j
+        return j + 1
+    return 0
+
+
+KEYWORDS = {"if", "else", "match", "let", "return", "unsafe", "loop", "while", "for", "in", "move", "break", "continue", "as", "mut", "ref", "fn"}
+
+
+def expand(F, fn, toks=None, stack=(), prov=()):
+    """`toks` (default: the body of `fn`) with every call of an interesting same-file function replaced by
+    `{ its body }`, parameters substituted by the argument expressions, `self` by the receiver"""
+    toks = fn.body if toks is None else toks
+    out, i = [], 0
+    while i < len(toks):
+        t = toks[i]
+        c = F.callee(toks, i, fn) if t.k == "id" and t.s in F.by_name else None
+        if c is not None and id(c[0]) in F.interesting and c[0].qual not in stack and len(stack) < 6:
+            g, s, lp, recv = c
+            rp = match_fwd(toks, lp)
+            args = [expand(F, fn, a, stack, prov) for a in split_top(toks[lp + 1:rp], ",", angles=False)]
+            # drop what was already emitted of the call expression (receiver / path qualifier)
+            drop = i - s
+            if drop:
+                del out[len(out) - drop:]
+            if recv is None and g.has_self and args:
+                recv, args = args[0], args[1:]
+            elif recv is not None:
+                recv = expand(F, fn, recv, stack, prov)
+            sub = {}
+            for name, a in zip(g.params, args):
+                if name:
+                    sub[name] = a
+            nprov = prov + (g.qual,)
+            body = []
+            for b in g.body:
+                if b.k == "id" and b.s == "self" and recv is not None:
+                    body += paren(recv, nprov)
+                elif b.k == "id" and b.s in sub and not (body and body[-1].s == "." and body[-1].k == "p"):
+                    body += paren(sub[b.s], nprov)
+                elif b.k == "id" and b.s == "return":
+                    body.append(T("id", "inl_return", nprov))
+                else:
+                    body.append(T(b.k, b.s, nprov))
+            out.append(T("blk", "{", nprov))
+            out += expand(F, g, body, stack + (g.qual,), nprov)
+            out.append(T("p", "}", nprov))
+            i = rp + 1
+            continue
+        out.append(t)
+        i += 1
+    return out
+
+
+def paren(toks, prov):
+    if len(toks) == 1:
+        return [toks[0]]
+    return [T("p", "(", prov)] + list(toks) + [T("p", ")", prov)]
+
+
+# ------------------------------------------------------------------ control structure
+
+def is_struct_brace(toks, i):
+    if toks[i].k == "blk":
+        return False
+    p = toks[i - 1] if i > 0 else None
+    if p is None:
+        return False
+    return (p.k == "id" and p.s[:1].isupper()) or (p.k == "p" and p.s == ">")
+
+
+def block_open(toks, start):
+    """first `{` from start at paren depth 0 that opens a block (the body of an if / match / while)"""
+    j = start
+    while j < len(toks):
+        t = toks[j]
+        if t.s == "{" and t.k in ("p", "blk"):
+            return j
+        if is_open(t):
+            j = match_fwd(toks, j)
+        j += 1
+    return len(toks)
+
+
+def parse_if(toks, i):
+    b = block_open(toks, i + 1)
+    cond = toks[i + 1:b]
+    e = match_fwd(toks, b)
+    then = parse_seq(toks[b + 1:e])
+    nxt, els = e + 1, None
+    if nxt < len(toks) and toks[nxt].k == "id" and toks[nxt].s == "else":
+        if nxt + 1 < len(toks) and toks[nxt + 1].k == "id" and toks[nxt + 1].s == "if":
+            node, nxt = parse_if(toks, nxt + 1)
+            els = [node]
+        elif nxt + 1 < len(toks) and toks[nxt + 1].s == "{":
+            e2 = match_fwd(toks, nxt + 1)
+            els = parse_seq(toks[nxt + 2:e2])
+            nxt = e2 + 1
+    pat = None
+    if cond and cond[0].k == "id" and cond[0].s == "let":
+        q = find_top(cond, lambda x: x.s == "=" and x.k == "p")
+        pat, cond = cond[1:q], cond[q + 1:]
+    return {"t": "if", "cond": cond, "cseq": parse_seq(cond), "pat": pat, "then": then, "else": els}, nxt
+
+
+def parse_match(toks, i):
+    b = block_open(toks, i + 1)
+    scrut = toks[i + 1:b]
+    e = match_fwd(toks, b)
+    inner, arms, j = toks[b + 1:e], [], 0
+    while j < len(inner):
+        a = find_top(inner, lambda x: x.s == "=>", j)
+        if a >= len(inner):
+            break
+        pat = inner[j:a]
+        k = a + 1
+        if k < len(inner) and inner[k].s == "{" and not is_struct_brace(inner, k):
+            ke = match_fwd(inner, k)
+            body = inner[k + 1:ke]
+            j = ke + 1
+            if j < len(inner) and inner[j].s == ",":
+                j += 1
+        else:
+            ke = find_top(inner, lambda x: x.s == "," and x.k == "p", k)
+            body = inner[k:ke]
+            j = ke + 1
+        arms.append((pat, parse_seq(body)))
+    return {"t": "match", "scrut": scrut, "sseq": parse_seq(scrut), "arms": arms}, e + 1
+
+
+def parse_seq(toks):
+    nodes, cur, i = [], [], 0
+
+    def flush():
+        if cur:
+            nodes.append({"t": "text", "toks": list(cur)})
+            del cur[:]
+    while i < len(toks):
+        t = toks[i]
+        if t.k == "id" and t.s == "if":
+            flush()
+            node, i = parse_if(toks, i)
+            nodes.append(node)
+            continue
+        if t.k == "id" and t.s == "match":
+            flush()
+            node, i = parse_match(toks, i)
+            nodes.append(node)
+            continue
+        if t.k == "id" and t.s in ("loop", "while", "for"):
+            b = block_open(toks, i + 1)
+            if b < len(toks):
+                flush()
+                e = match_fwd(toks, b)
+                cond = toks[i + 1:b]
+                nodes.append({"t": "loop", "kind": t.s, "cond": cond, "cseq": parse_seq(cond) if t.s == "while" else [], "body": parse_seq(toks[b + 1:e]),
+                              "raw": toks[i:e + 1]})
+                i = e + 1
+                continue
+        if t.k == "id" and t.s == "unsafe" and i + 1 < len(toks) and toks[i + 1].s == "{":
+            i += 1
+            continue
+        if t.s == "{" and t.k in ("p", "blk"):
+            e = match_fwd(toks, i)
+            if is_struct_brace(toks, i):
+                cur += toks[i:e + 1]
+            else:
+                # `let PAT = EXPR else { .. }` : the block runs when the pattern does not match
+                if cur and cur[-1].k == "id" and cur[-1].s == "else":
+                    st = len(cur) - 1
+                    while st > 0 and not (cur[st].k == "id" and cur[st].s == "let"):
+                        st -= 1
+                    if cur[st].k == "id" and cur[st].s == "let":
+                        stmt = cur[st + 1:-1]
+                        q = find_top(stmt, lambda x: x.s == "=" and x.k == "p")
+                        head = cur[:st]
+                        del cur[:]
+                        cur += head
+                        flush()
+                        nodes.append({"t": "if", "cond": stmt[q + 1:], "cseq": parse_seq(stmt[q + 1:]), "pat": stmt[:q], "then": [],
+                                      "else": parse_seq(toks[i + 1:e]), "letelse": True})
+                        i = e + 1
+                        continue
+                flush()
+                nodes += parse_seq(toks[i + 1:e])
+            i = e + 1
+            continue
+        if t.k == "p" and t.s in ("|", "||") and (i == 0 or toks[i - 1].s in ("=", "(", ",", "move", "return", "{", ";", "=>")):
+            # a closure: not executed where it is written
+            j = i + 1
+            if t.s == "|":
+                j = find_top(toks, lambda x: x.s == "|" and x.k == "p", i + 1) + 1
+            if j < len(toks) and toks[j].s == "->":
+                j = block_open(toks, j)
+            if j < len(toks) and toks[j].s == "{":
+                e = match_fwd(toks, j)
+                body, nxt = toks[j + 1:e], e + 1
+            else:
+                e = find_top(toks, lambda x: x.k == "p" and x.s in (",", ";", ")"), j)
+                body, nxt = toks[j:e], e
+            name = None
+            c = compact(cur[-4:])
+            m = re.search(r"let (?:mut )?(\w+)=(?:move)?$", c)
+            if m:
+                name = m.group(1)
+            flush()
+            nodes.append({"t": "closure", "name": name, "body": parse_seq(body), "raw": body})
+            i = nxt
+            continue
+        if t.k == "id" and t.s in ("return", "inl_return", "break"):
+            flush()
+            j = i + 1
+            if t.s == "break" and j < len(toks) and toks[j].k == "life":
+                j += 1
+            e = find_top(toks, lambda x: x.k == "p" and x.s in (";", ","), j)
+            nodes.append({"t": {"return": "ret", "inl_return": "inlret", "break": "brk"}[t.s], "expr": parse_seq(toks[j:e])})
+            i = e
+            continue
+        if t.k == "id" and t.s == "continue":
+            flush()
+            nodes.append({"t": "cont"})
+            i += 1
+            continue
+        cur.append(t)
+        i += 1
+    flush()
+    return nodes
+
+
+def all_nodes(seq, into_closures=False):
+    for n in seq:
+        yield n
+        for key in ("cseq", "then", "else", "sseq", "body", "expr"):
+            sub = n.get(key)
+            if sub and (into_closures or n["t"] != "closure"):
+                for x in all_nodes(sub, into_closures):
+                    yield x
+        if n["t"] == "match":
+            for _, b in n["arms"]:
+                for x in all_nodes(b, into_closures):
+                    yield x
+
+
+# ------------------------------------------------------------------ one analysed function
+
+class Ana:
+    """a top-level function (or the thread's epilogue closure) after inlining: bindings, operations, paths"""
+
+    def __init__(self, F, name, toks, func_param=None, closure_names=(), env_toks=None):
+        self.F, self.name, self.toks = F, name, toks
+        self.func_param = func_param
+        self.closure_names = set(closure_names)
+        self.env, self.tuples = {}, []
+        self.build_env(env_toks if env_toks is not None else toks)
+        self.sites = []
+        self.loops = []          # recognised / unrecognised wait loops
+        self.seq = parse_seq(toks)
+        # operations of every straight-line piece, once, in textual order (closures are analysed on their own)
+        for n in all_nodes(self.seq):
+            if n["t"] == "text":
+                n["ops"] = self.text_ops(n["toks"])
+
+    # ---- `let` bindings (of the function and of everything inlined into it)
+    def build_env(self, toks):
+        for i, t in enumerate(toks):
+            if not (t.k == "id" and t.s == "let"):
+                continue
+            q = find_top(toks, lambda x: x.k == "p" and x.s in ("=", ";"), i + 1)
+            if q >= len(toks) or toks[q].s == ";":
+                continue
+            e = find_top(toks, lambda x: x.k == "p" and x.s == ";", q + 1)
+            pat, init = toks[i + 1:q], compact(toks[q + 1:e])
+            c = find_top(pat, lambda x: x.s == ":" and x.k == "p")
+            names = [x.s for x in pat[:c] if x.k == "id" and x.s not in ("mut", "ref") and not x.s[:1].isupper()]
+            if pat and pat[0].s == "(":
+                self.tuples.append((names, init))
+            for n in names:
+                self.env.setdefault(n, []).append(init)
+
+    def resolves_to(self, expr, rx, depth=0):
+        """does the expression — or, when it is a plain variable, what it was bound to — match rx"""
+        if re.search(rx, expr):
+            return True
+        e = expr.strip()
+        while e.startswith("(") and e.endswith(")"):
+            e = e[1:-1]
+        e = re.sub(r"^[&*]+", "", e)
+        if depth < 4 and re.fullmatch(r"\w+", e):
+            return any(self.resolves_to(i, rx, depth + 1) for i in self.env.get(e, []))
+        return False
+
+    # ---- locations of atomic operations
+    def loc_of(self, recv, depth=0):
+        kinds = {}
+        for f in self.F.fns:
+            if "AtomicBool" in f.ret:
+                kinds[f.name] = "sync"
+            elif "AtomicU32" in f.ret:
+                kinds[f.name] = "futex"
+        calls = re.findall(r"\.(\w+)\(\)", recv)
+        for c in reversed(calls):
+            if c in kinds:
+                return kinds[c]
+        if "cast::<AtomicBool>" in recv:
+            return "sync"
+        if "cast::<AtomicU32>" in recv:
+            return "futex"
+        e = recv.strip()
+        while e.startswith("(") and e.endswith(")"):
+            e = e[1:-1]
+        e = re.sub(r"^[&*]+", "", e)
+        if depth < 4 and re.fullmatch(r"\w+", e):
+            for i in self.env.get(e, []):
+                r = self.loc_of(i, depth + 1)
+                if r != "?":
+                    return r
+        return "?"
+
+    # ---- operations of a straight-line piece of code, in textual (= evaluation) order
+    def text_ops(self, toks):
+        s = compact(toks)
+        # char offset -> token (for the provenance of a match)
+        offs, pos, prev = [], 0, None
+        for t in toks:
+            if prev is not None and wordy(prev) and wordy(t):
+                pos += 1
+            offs.append((pos, t))
+            pos += len(t.s)
+            prev = t
+
+        def prov_at(p):
+            best = ()
+            for o, t in offs:
+                if o > p:
+                    break
+                best = t.prov
+            return best
+        found = []
+
+        def add(m, name, extra=None):
+            found.append((m.start(), name, extra))
+        for m in re.finditer(r"(?<![\w.:])(?:alloc::alloc::|alloc::)?alloc(_zeroed)?\(", s):
+            add(m, "tsm_alloc_zeroed" if m.group(1) else "tsm_alloc")
+        for m in re.finditer(r"\.write\(AtomicBool::new\((\w+)\)\)", s):
+            add(m, "init_flag_false" if m.group(1) == "false" else "init_flag?")
+        for m in re.finditer(r"\.write\(AtomicU32::new\(([\w:]+)\)\)", s):
+            add(m, "init_word", m.group(1))
+        for m in re.finditer(r"\.write\((?:UnsafeCell::new\()?None\)?\)", s):
+            add(m, "init_slot_none")
+        if self.func_param:
+            for m in re.finditer(r"(?<![\w.])\(?%s\)?\(\)" % re.escape(self.func_param), s):
+                add(m, "call_func")
+        for m in re.finditer(r"\)=Some\(|\.write\(Some\(|\.replace\(Some\(", s):
+            add(m, "write_slot")
+        for m in re.finditer(r"\.(compare_exchange_weak|compare_exchange|load|store|swap|fetch_\w+)\(", s):
+            op = m.group(1)
+            recv = s[expr_start(s, m.start()):m.start()]
+            args = split_args(s[m.end():close_paren(s, m.end() - 1)])
+            ords = [ORD[a.split("::")[-1]] for a in args if a.split("::")[-1] in ORD]
+            vals = [a for a in args if a.split("::")[-1] not in ORD]
+            loc = self.loc_of(recv)
+            site = {"fn": self.name, "op": op, "loc": loc, "vals": vals, "ords": ords}
+            self.sites.append(site)
+            add(m, "cas" if op.startswith("compare_exchange") else ("load" if op == "load" else "atomic?"), site)
+        for m in re.finditer(r"(?<![\w.])futex_wait_fast\(", s):
+            args = split_args(s[m.end():close_paren(s, m.end() - 1)])
+            site = {"fn": self.name, "op": "futex_wait_fast", "loc": self.loc_of(args[0]) if args else "?", "vals": args[1:], "ords": []}
+            self.sites.append(site)
+            add(m, "futex_wait", site)
+        for m in re.finditer(r"syscall!\(SET_TID_ADDRESS,([^)]*)\)", s):
+            add(m, "set_tid_0" if self.F.value_of(m.group(1)) == 0 else "set_tid?")
+        for m in re.finditer(r"drop_in_place\(", s):
+            add(m, "drop_value")
+        for m in re.finditer(r"(?<![\w.])(?:alloc::alloc::|alloc::)?dealloc\(", s):
+            args = s[m.end():close_paren(s, m.end() - 1)]
+            prov = prov_at(m.start())
+            if "ThreadLocalStorage" in args:
+                add(m, "tls_dealloc")
+            elif any(p.startswith("Tsm::") for p in prov):
+                add(m, "tsm_dealloc")
+            else:
+                add(m, "dealloc?")
+        for m in re.finditer(r"(?<![\w.])(?:\w+::)*mmap\(", s):
+            add(m, "mmap")
+        for m in re.finditer(r"(?<![\w.])(?:\w+::)*munmap\(", s):
+            add(m, "munmap")
+        for m in re.finditer(r"__clone\(", s):
+            add(m, "clone")
+        for m in re.finditer(r"Box::new\(ThreadLocalStorage\{", s):
+            add(m, "tls_box")
+        for m in re.finditer(r"Box::new\(\(?(?:(\w+)\)?\)|(?:move)?\|)", s):
+            if m.group(1) is None or m.group(1) in self.closure_names:
+                add(m, "box_closure")
+        for m in re.finditer(r"Box::from_raw\((\w+)\)", s):
+            if self.resolves_to(m.group(1), r"ThreadLocalStorage\{"):
+                add(m, "drop_tls")
+        split_names = set()
+        for names, init in self.tuples:
+            if re.search(r"Box::into_raw\(Box::new\(", init) or "onwed_split_fn_once" in init:
+                split_names |= set(names)
+        for m in re.finditer(r"(?<![\w.:])\(?(\w+)\)?\(\(?(\w+)\)?\)", s):
+            if m.group(1) in split_names and m.group(2) in split_names:
+                add(m, "drop_closure")
+        for m in re.finditer(r"(?<![\w.])Ok\((JoinHandle\{|(\w+)\))", s):
+            if m.group(2) is None or self.resolves_to(m.group(2), r"JoinHandle\{"):
+                add(m, "ok_handle")
+        for m in re.finditer(r"(?<![\w.])Err\(", s):
+            add(m, "ret_err")
+        for m in re.finditer(r"\.read\(\)", s):
+            recv = s[expr_start(s, m.start()):m.start()]
+            if "value_offset" in recv or "value_mut" in recv:
+                add(m, "read_slot")
+            elif self.resolves_to(recv, r"get_tls_ptr\(\)") or "get_tls_ptr()" in recv:
+                add(m, "tls_read")
+        for m in re.finditer(r"mem::forget\(self\)|(?<![\w.])forget\(self\)|ManuallyDrop::new\(self\)", s):
+            add(m, "forget")
+        for m in re.finditer(r"asm!\(", s):
+            body = s[m.end():close_paren(s, m.end() - 1)]
+            ins = re.findall(r'"([^"]*)"', re.split(r",(?:in|out|inout|lateout|inlateout|options)\(", body)[0])
+            if 'in("rax")MUNMAP' in body and ins[:1] == ["syscall"] and "mov al, 60" in ins and ins[-1:] == ["syscall"] and "noreturn" in body:
+                add(m, "asm_unmap_exit")
+            elif "syscall" in ins:
+                add(m, "asm?")
+        for m in re.finditer(r"process::exit\(|(?<![\w.])exit\(", s):
+            add(m, "exit_process")
+        for m in re.finditer(r"\)\?", s):
+            add(m, "try?")
+        found.sort(key=lambda x: x[0])
+        return [(n, x) for _, n, x in found]
+
+    # ---- what a condition decides
+    def tags_of(self, cond, pat=None):
+        """-> (tag when the condition holds / the pattern matches, tag otherwise) or None"""
+        c = compact(cond)
+        neg = False
+        while True:
+            if c.startswith("!"):
+                neg, c = not neg, c[1:]
+            elif c.startswith("(") and close_paren(c, 0) == len(c) - 1:
+                c = c[1:-1]
+            else:
+                break
+        r = None
+        if pat is not None:
+            p = compact(pat)
+            if self.resolves_to(c, r"\.compare_exchange(_weak)?\("):
+                r = ("cas_lost", "cas_won") if p.startswith("Err") else ("cas_won", "cas_lost") if p.startswith("Ok") else None
+            elif self.resolves_to(c, r"(?<![\w.])(\w+::)*mmap\("):
+                r = ("mmap_err", "mmap_ok") if p.startswith("Err") else ("mmap_ok", "mmap_err") if p.startswith("Ok") else None
+            elif self.resolves_to(c, r"thread_stack_info\(\)|\.stack_info\b"):
+                r = ("is_thread", "is_main") if p.startswith("Some") else ("is_main", "is_thread") if p.startswith("None") else None
+        else:
+            cas_err = r"\.compare_exchange(_weak)?\(.*\)\.is_err\(\)$"
+            cas_ok = r"\.compare_exchange(_weak)?\(.*\)\.is_ok\(\)$"
+            if self.resolves_to(c, cas_err):
+                r = ("cas_lost", "cas_won")
+            elif self.resolves_to(c, cas_ok):
+                r = ("cas_won", "cas_lost")
+            else:
+                m = re.fullmatch(r"(.+?)(<=|>=|<|>)(.+)", c)
+                if m:
+                    a, op, b = m.groups()
+                    if self.F.value_of(a) is not None:
+                        a, b, op = b, a, {"<": ">", ">": "<", "<=": ">=", ">=": "<="}[op]
+                    v = self.F.value_of(b)
+                    if self.resolves_to(a, r"__clone\(") and v is not None:
+                        if (op, v) == ("<", 0):
+                            r = ("clone_neg", "clone_nonneg")
+                        elif (op, v) == (">=", 0):
+                            r = ("clone_nonneg", "clone_neg")
+                m = re.fullmatch(r"(.+)\.is_negative\(\)", c)
+                if m and self.resolves_to(m.group(1), r"__clone\("):
+                    r = ("clone_neg", "clone_nonneg")
+        if r is None:
+            return None
+        return (r[1], r[0]) if neg else r
+
+    # ---- the exit-wait loop
+    def wait_loop(self, node):
+        """a loop that contains the futex wait.  Recognised when one iteration is exactly: load the word; leave the
+        loop iff it differs from V; otherwise futex_wait_fast(word, V) and go round again."""
+        if "wl" in node:
+            return node["wl"]
+        raw = compact(node["raw"])
+        if "futex_wait_fast(" not in raw:
+            node["wl"] = None
+            return None
+        info = node["wl"] = {"recognised": False, "iter": [], "cmp": None, "arg": None}
+        body = node["body"]
+        if node["kind"] == "while":
+            body = [{"t": "if", "cond": node["cond"], "cseq": node["cseq"], "pat": None, "then": list(node["body"]) + [{"t": "cont"}], "else": [{"t": "brk", "expr": []}]}]
+        elif node["kind"] != "loop":
+            self.loops.append(info)
+            return info
+        cmp_toks = []
+
+        def word_tags(cond, pat=None):
+            c = compact(cond)
+            m = re.fullmatch(r"(.+?)(==|!=)(.+)", c)
+            if not m or pat is not None:
+                return None
+            a, op, b = m.groups()
+            if self.resolves_to(b, r"\.load\(") and not self.resolves_to(a, r"\.load\("):
+                a, b = b, a
+            if not self.resolves_to(a, r"\.load\("):
+                return None
+            cmp_toks.append(b)
+            return ("word_eq", "word_ne") if op == "==" else ("word_ne", "word_eq")
+        w = Walk(self, word_tags)
+        r = w.walk(body + [{"t": "cont"}], [[]])
+        paths = [p + ["break"] for p in r["brk"]] + [p + ["continue"] for p in r["cont"]] + [p + ["return"] for p in r["ret"]] + [p + ["fallthrough"] for p in r["live"]]
+        # the loads are bound before they are compared (`let w = x.load(..)`) or sit inside the condition: either way
+        # they are the first operation of the path
+        info["iter"] = sorted(set(tuple(p) for p in paths))
+        args = [x["vals"][0] if x["vals"] else "?" for nm, x in w.seen if nm == "futex_wait"]
+        info["cmp"] = sorted(set(cmp_toks))
+        info["arg"] = sorted(set(args))
+        good = {("load", "word_ne", "break"), ("load", "word_eq", "futex_wait", "continue")}
+        info["recognised"] = set(info["iter"]) == good and len(info["cmp"]) == 1 and info["cmp"] == info["arg"]
+        self.loops.append(info)
+        return info
+
+    def paths(self, tagger=None):
+        w = Walk(self, tagger)
+        r = w.walk(self.seq, [[]])
+        out = [p + ["return"] for p in r["ret"]] + [p + ["end"] for p in r["live"]] + [p + ["break?"] for p in r["brk"]] + [p + ["continue?"] for p in r["cont"]]
+        uniq = []
+        for p in out:
+            if p not in uniq:
+                uniq.append(p)
+        return uniq
+
+
+class Walk:
+    def __init__(self, ana, tagger=None):
+        self.a, self.tagger, self.seen = ana, tagger, []
+
+    def is_pure(self, seq):
+        r = Walk(self.a, self.tagger).walk(seq or [], [[]])
+        return r == {"live": [[]], "ret": [], "brk": [], "cont": []}
+
+    def walk(self, seq, live):
+        res = {"live": [list(p) for p in live], "ret": [], "brk": [], "cont": []}
+        for n in seq:
+            if not res["live"]:
+                break
+            t = n["t"]
+            if t == "text":
+                ops = n["ops"] if "ops" in n else self.a.text_ops(n["toks"])
+                for name, extra in ops:
+                    if extra is not None:
+                        self.seen.append((name, extra))
+                    if name == "try?":
+                        res["ret"] += [p + ["try_return"] for p in res["live"]]
+                    else:
+                        res["live"] = [p + [name] for p in res["live"]]
+            elif t == "if":
+                r = self.walk(n["cseq"], res["live"])
+                self.merge(res, r)
+                tags = (self.tagger(n["cond"], n["pat"]) if self.tagger else None) or self.a.tags_of(n["cond"], n["pat"])
+                if tags is None and self.is_pure(n["then"]) and self.is_pure(n["else"]):
+                    continue
+                tags = tags or ("cond?", "cond?")
+                a = self.walk(n["then"], [p + [tags[0]] for p in res["live"]])
+                b = self.walk(n["else"] or [], [p + [tags[1]] for p in res["live"]])
+                res["live"] = []
+                for x in (a, b):
+                    self.merge(res, x, keep_live=True)
+            elif t == "match":
+                r = self.walk(n["sseq"], res["live"])
+                self.merge(res, r)
+                if all(self.is_pure(b) for _, b in n["arms"]):
+                    continue
+                base, res["live"] = res["live"], []
+                for pat, body in n["arms"]:
+                    tags = (self.tagger(n["scrut"], pat) if self.tagger else None) or self.a.tags_of(n["scrut"], pat)
+                    x = self.walk(body, [p + [tags[0] if tags else "arm?"] for p in base])
+                    self.merge(res, x, keep_live=True)
+            elif t == "loop":
+                info = self.a.wait_loop(n) if self.tagger is None else None
+                if info is not None:
+                    # the sites of the loop are recorded by the loop's own walk; as one operation of the path
+                    res["live"] = [p + ["wait" if info["recognised"] else "wait?"] for p in res["live"]]
+                    continue
+                base = [p + ["loop?"] for p in res["live"]]
+                if n["kind"] == "while":
+                    c = self.walk(n["cseq"], base)
+                    res["ret"] += c["ret"]
+                    base = c["live"]
+                x = self.walk(n["body"], base)
+                res["ret"] += x["ret"]
+                res["live"] = x["brk"] + x["live"] + x["cont"] + (base if n["kind"] != "loop" else [])
+            elif t in ("ret", "inlret"):
+                r = self.walk(n["expr"], res["live"])
+                self.merge(res, r)
+                res["ret"] += [p + (["inl_return?"] if t == "inlret" else []) for p in res["live"]]
+                res["live"] = []
+            elif t == "brk":
+                r = self.walk(n["expr"], res["live"])
+                self.merge(res, r)
+                res["brk"] += res["live"]
+                res["live"] = []
+            elif t == "cont":
+                res["cont"] += res["live"]
+                res["live"] = []
+            elif t == "closure":
+                if n["name"] is None and not self.is_pure(n["body"]):
+                    res["live"] = [p + ["closure?"] for p in res["live"]]
+        return res
+
+    @staticmethod
+    def merge(res, r, keep_live=False):
+        if keep_live:
+            res["live"] += r["live"]
+        else:
+            res["live"] = r["live"]
+        for k in ("ret", "brk", "cont"):
+            res[k] += r[k]
+        return None
+
+
+# ---- small string helpers on compact text
+
+def close_paren(s, i):
+    """s[i] is `(`: index of the matching `)` (string literals are skipped)"""
+    depth, j, n = 0, i, len(s)
+    while j < n:
+        ch = s[j]
+        if ch == '"':
+            j += 1
+            while j < n and s[j] != '"':
+                j += 2 if s[j] == "\\" else 1
+        elif ch in "([{":
+            depth += 1
+        elif ch in ")]}":
+            depth -= 1
+            if depth == 0:
+                return j
+        j += 1
+    return n
+
+
+def expr_start(s, e):
+    """start of the postfix expression that ends just before s[e]"""
+    j = e - 1
+    while j >= 0:
+        ch = s[j]
+        if ch in ")]":
+            depth = 0
+            while j >= 0:
+                if s[j] in ")]}":
+                    depth += 1
+                elif s[j] in "([{":
+                    depth -= 1
+                    if depth == 0:
+                        break
+                j -= 1
+            j -= 1
+            # turbofish before the call parenthesis
+            if j >= 0 and s[j] == ">":
+                depth = 0
+                while j >= 0:
+                    if s[j] == ">" and s[j - 1:j + 1] != "->":
+                        depth += 1
+                    elif s[j] == "<":
+                        depth -= 1
+                        if depth == 0:
+                            break
+                    j -= 1
+                j -= 1
+            continue
+        if ch.isalnum() or ch in "_.:":
+            j -= 1
+            continue
+        break
+    return j + 1
+
+
+def split_args(s):
+    out, depth, cur, i = [], 0, "", 0
+    while i < len(s):
+        ch = s[i]
+        if ch == '"':
+            k = i + 1
+            while k < len(s) and s[k] != '"':
+                k += 2 if s[k] == "\\" else 1
+            cur += s[i:k + 1]
+            i = k + 1
+            continue
+        if ch in "([{":
+            depth += 1
+        elif ch in ")]}":
+            depth -= 1
+        if ch == "," and depth == 0:
+            out.append(cur)
+            cur = ""
+        else:
+            cur += ch
+        i += 1
+    if cur:
+        out.append(cur)
+    return out
+
+
+# ------------------------------------------------------------------ predicates over path lists
+# (restated one to one in lean/TinyVerif/Props/C05.lean; `gen_params_from_paths` checks the two agree)
+
+def has(a, p):
+    return a in p
+
+
+def once(a, p):
+    return p.count(a) == 1
+
+
+def bef(a, b, p):
+    return a in p and b in p and p.index(a) < p.index(b)
+
+
+# the operation vocabulary shared with Props/C05.lean (`Gen.Thread.Op`); anything else is emitted as `Op.unknown`
+VOCAB = ["tsm_alloc", "tsm_alloc_zeroed", "init_flag_false", "init_word", "init_slot_none", "box_closure", "mmap", "mmap_err", "mmap_ok",
+         "try_return", "tls_box", "clone", "clone_neg", "clone_nonneg", "drop_tls", "munmap", "drop_closure", "tsm_dealloc", "ret_err",
+         "ok_handle", "return", "end", "call_func", "write_slot", "cas", "cas_lost", "cas_won", "set_tid_0", "drop_value", "tls_dealloc",
+         "tls_read", "is_thread", "is_main", "asm_unmap_exit", "exit_process", "wait", "futex_wait", "load", "read_slot", "forget",
+         "word_eq", "word_ne", "break", "continue"]
+LEAN_OP = {"return": "ret", "end": "fin", "break": "brk", "continue": "cont"}
+
+
+def lean_op(o):
+    return "." + LEAN_OP.get(o, o) if o in VOCAB else ".unknown"
+
+
+def understood(p):
+    return all(o in VOCAB for o in p)
+
+
+def p_check_clone(ps):
+    thr = [p for p in ps if has("clone", p)]
+    neg = [p for p in ps if has("clone_neg", p)]
+    pos = [p for p in ps if has("clone_nonneg", p)]
+    return (bool(neg) and bool(pos) and all(understood(p) and once("clone", p) and (has("clone_neg", p) != has("clone_nonneg", p)) for p in thr)
+            and all(bef("clone", "clone_neg", p) and all(once(x, p) and bef("clone_neg", x, p) for x in ("drop_tls", "munmap", "drop_closure", "tsm_dealloc"))
+                    and has("ret_err", p) and not has("ok_handle", p) for p in neg)
+            and all(bef("clone_nonneg", "ok_handle", p) and not any(has(x, p) for x in ("drop_tls", "munmap", "drop_closure", "tsm_dealloc", "ret_err")) for p in pos))
+
+
+def p_mmap_cleanup(ps):
+    mm = [p for p in ps if has("mmap", p)]
+    err = [p for p in ps if has("mmap_err", p)]
+    return (bool(err) and all(once("mmap", p) and (has("mmap_err", p) != has("mmap_ok", p)) and not has("try_return", p) for p in mm)
+            and all(understood(p) and bef("mmap", "mmap_err", p) and all(once(x, p) and bef("mmap_err", x, p) for x in ("drop_closure", "tsm_dealloc"))
+                    and has("ret_err", p) and not any(has(x, p) for x in ("ok_handle", "clone", "tls_box", "munmap")) for p in err))
+
+
+def lost(ps):
+    return [p for p in ps if has("cas_lost", p)]
+
+
+def won(ps):
+    return [p for p in ps if has("cas_won", p)]
+
+
+def p_set_tid(ps):
+    """the losing thread resets its clear-tid address after the CAS and before it frees the block; the winner never does"""
+    return (bool(lost(ps)) and all(understood(p) and once("set_tid_0", p) and bef("cas", "set_tid_0", p) and bef("set_tid_0", "tsm_dealloc", p) for p in lost(ps))
+            and all(understood(p) and not has("set_tid_0", p) for p in won(ps)))
+
+
+def p_drop_val_t(ps):
+    return bool(lost(ps)) and all(understood(p) and once("drop_value", p) and bef("cas", "drop_value", p) and bef("drop_value", "tsm_dealloc", p) for p in lost(ps))
+
+
+def p_drop_val_h(ps):
+    return bool(lost(ps)) and all(understood(p) and once("drop_value", p) and bef("cas", "wait", p) and bef("wait", "drop_value", p) and bef("drop_value", "tsm_dealloc", p)
+                                  for p in lost(ps))
+
+
+GOOD_ITER = [["load", "word_eq", "futex_wait", "continue"], ["load", "word_ne", "break"]]
+
+
+def p_recheck(loops):
+    """every exit-wait loop re-reads the word after each return of the futex wait and leaves only when it differs from
+    the value it waits on (that every path of join / of a losing drop goes through the wait is `s_join` / `s_drop`)"""
+    return bool(loops) and all(sorted(list(x) for x in l["iter"]) == GOOD_ITER and len(l["cmp"]) == 1 and l["cmp"] == l["arg"] for l in loops)
+
+
+# shape: the explicit partial order between operations that the model's step sequence relies on
+
+def s_spawn(ps, sites):
+    setup = ("tsm_alloc", "init_flag_false", "init_word", "init_slot_none", "box_closure", "mmap", "tls_box")
+    return (not sites and any(has("clone", p) for p in ps)
+            and all(once("tsm_alloc", p) and all(once(x, p) and bef("tsm_alloc", x, p) for x in ("init_flag_false", "init_word", "init_slot_none"))
+                    and not has("tsm_alloc_zeroed", p) and not has("init_flag?", p) for p in ps)
+            and all(all(once(x, p) and bef(x, "clone", p) for x in setup) for p in ps if has("clone", p))
+            and all(bef("clone", "ok_handle", p) for p in ps if has("ok_handle", p)))
+
+
+def s_epilogue(ps):
+    return (bool(lost(ps)) and bool(won(ps))
+            and all(understood(p) and once("call_func", p) and once("write_slot", p) and once("cas", p) and bef("call_func", "write_slot", p) and bef("write_slot", "cas", p)
+                    and (has("cas_won", p) != has("cas_lost", p)) and once("tls_dealloc", p) and bef("call_func", "tls_dealloc", p)
+                    and not has("wait", p) and not has("futex_wait", p) and not has("load", p) for p in ps)
+            and all(once("tsm_dealloc", p) and bef("cas", "tsm_dealloc", p) and (not has("drop_value", p) or bef("drop_value", "tls_dealloc", p)) for p in lost(ps))
+            and all(not has("tsm_dealloc", p) and not has("drop_value", p) for p in won(ps)))
+
+
+def s_panic(ps):
+    thr = [p for p in ps if has("is_thread", p)]
+    main = [p for p in ps if has("is_main", p)]
+    return (bool(lost(thr)) and bool(won(thr)) and bool(main)
+            and all(understood(p) and once("tls_read", p) and once("tls_dealloc", p) and bef("tls_read", "tls_dealloc", p) and once("cas", p)
+                    and (has("cas_won", p) != has("cas_lost", p)) and once("asm_unmap_exit", p)
+                    and all(not has(x, p) or bef(x, "asm_unmap_exit", p) for x in ("tls_dealloc", "cas", "set_tid_0", "tsm_dealloc")) for p in thr)
+            and all(once("tsm_dealloc", p) and bef("cas", "tsm_dealloc", p) for p in lost(thr))
+            and all(not has("tsm_dealloc", p) for p in won(thr))
+            and all(not any(has(x, p) for x in ("cas", "tsm_dealloc", "tls_dealloc", "set_tid_0", "asm_unmap_exit")) for p in main))
+
+
+def s_join(ps, sites):
+    return (bool(ps) and all(understood(p) and once("wait", p) and once("read_slot", p) and once("tsm_dealloc", p) and bef("wait", "read_slot", p)
+                             and bef("read_slot", "tsm_dealloc", p) and has("forget", p) and not has("cas", p) and not has("set_tid_0", p) for p in ps)
+            and all(s["loc"] == "futex" and s["op"] in ("load", "futex_wait_fast") for s in sites))
+
+
+def s_drop(ps):
+    return (bool(lost(ps)) and bool(won(ps))
+            and all(understood(p) and once("cas", p) and (has("cas_won", p) != has("cas_lost", p)) and not has("set_tid_0", p) for p in ps)
+            and all(once("wait", p) and once("tsm_dealloc", p) and bef("cas", "wait", p) and bef("wait", "tsm_dealloc", p) for p in lost(ps))
+            and all(not any(has(x, p) for x in ("wait", "tsm_dealloc", "drop_value", "futex_wait")) for p in won(ps)))
+
+
+# ------------------------------------------------------------------ the asm trampoline, the futex key kind
+
+def asm_syscalls(raw):
+    """x86-64 `__clone`: the system call numbers in rax at each `syscall`, in order"""
+    toks = strip_attrs(tokenize(raw))
+    txt = compact(toks)
+    out = []
+    for m in re.finditer(r"global_asm!\(", txt):
+        body = txt[m.end():close_paren(txt, m.end() - 1)]
+        ins = re.findall(r'"([^"]*)"', body)
+        if "__clone:" not in ins:
+            continue
+        rax = None
+        for i in ins:
+            i = i.strip()
+            mm = re.fullmatch(r"mov\s+(?:al|ax|eax|rax)\s*,\s*(\d+)", i)
+            if mm:
+                rax = int(mm.group(1))
+            elif re.fullmatch(r"xor\s+(eax|rax)\s*,\s*(eax|rax)", i):
+                rax = 0
+            elif i == "syscall":
+                out.append(rax if rax is not None else -1)
+                rax = None
+        break
+    return out
+
+
+def wait_key_private(repo):
+    """does `futex_wait` put FUTEX_PRIVATE_FLAG into the operation it hands to the kernel?  None = not understood"""
+    try:
+        src = open(os.path.join(repo, "rusl/src/futex.rs")).read()
+    except OSError:
+        return None
+    F = File(src)
+    f = F.fn("futex_wait")
+    if f is None:
+        return None
+    a = Ana(F, "futex_wait", f.body)
+    txt = compact(f.body)
+    m = re.search(r"syscall!\(FUTEX,", txt)
+    if not m:
+        return None
+    args = split_args(txt[m.end():close_paren(txt, m.start() + len("syscall!"))])
+    if len(args) < 2:
+        return None
+    op = args[1]
+    for _ in range(3):
+        if re.fullmatch(r"\w+", op) and op in a.env and len(a.env[op]) == 1:
+            op = a.env[op][0]
+    op = op.replace("(", "").replace(")", "")
+    if op == "FUTEX_WAIT" or re.fullmatch(r"FUTEX_WAIT&flags\.bits\.0|flags\.bits\.0&FUTEX_WAIT", op):
+        return False      # FUTEX_WAIT is 0: `0 & flags` is the plain (shared-key) wait
+    if re.fullmatch(r"FUTEX_WAIT\|flags\.bits\.0|flags\.bits\.0\|FUTEX_WAIT", op):
+        return True
+    return None
+
+
+# ------------------------------------------------------------------ extraction
+
+PARAMS = ["checkClone", "mmapCleanup", "setTidRet", "setTidPanic", "dropValH", "dropValT", "recheck"]
+NUMS = ["initWord", "joinExpect", "dropExpect"]
+
+
+def analyse(repo=None):
     repo = repo or C.REPO
     raw = open(os.path.join(repo, "tiny-std/src/thread/spawn.rs")).read()
-    src = S.strip_comments(raw)
-    bodies = fn_bodies(src)
-    spawn_b = (bodies.get("spawn") or [""])[0]
-    join_b = (bodies.get("join") or [""])[0]
-    drop_b = (bodies.get("drop") or [""])[0]
-    panic_b = (bodies.get("on_panic") or [""])[0]
-    consts = {m.group(1): int(m.group(2)) for m in re.finditer(r"const\s+([A-Z_]+)\s*:\s*u32\s*=\s*(\d+)\s*;", src)}
-    wait_b = (bodies.get("wait_for_exit") or [""])[0]
-    tables = {"join": sites("join", join_b), "drop": sites("drop", drop_b), "spawn": sites("spawn", spawn_b),
-              "panic": sites("on_panic", panic_b), "wait": sites("wait_for_exit", wait_b)}
-    wait_cmp = re.search(r"while\s+futex\.load\(\s*Ordering::(\w+)\s*\)\s*==\s*([A-Za-z_0-9]+)\s*\{\s*futex_wait_fast\(", wait_b)
-    spawn_ops = ops(spawn_b, SPAWN_LABELS)
-    panic_ops = ops(panic_b, PANIC_LABELS)
-    join_ops = ops(join_b, JOIN_LABELS)
-    drop_ops = ops(drop_b, DROP_LABELS)
-    # x86-64 trampoline: text between the x86_64 `__clone:` label and the aarch64 block
-    clone_asm = asm_immediates(raw, '"__clone:",', '#[cfg(target_arch = "aarch64")]')
+    F = File(raw)
+    notes = []
 
-    def between(seq, a, b):
-        try:
-            i = seq.index(a)
-            j = seq.index(b, i + 1)
-            return seq[i + 1:j]
-        except ValueError:
-            return []
-    epilogue = spawn_ops[:spawn_ops.index("box_closure")] if "box_closure" in spawn_ops else []
-    after_clone = between(spawn_ops, "clone", "ok_handle")
-    after_mmap = between(spawn_ops, "mmap", "tls_box")
-    init_word = consts.get("UNFINISHED")
-    w_tok = next((s["vals"][0] for s in tables["wait"] if s["op"] == "futex_wait_fast"), None)
-    j_tok = next((s["vals"][0] for s in tables["join"] if s["op"] == "futex_wait_fast"), w_tok if "wait" in join_ops else None)
-    d_tok = next((s["vals"][0] for s in tables["drop"] if s["op"] == "futex_wait_fast"), w_tok if "wait" in drop_ops else None)
-    # the loop re-reads the word with at least Acquire and leaves only when it differs from the value waited on
-    recheck = bool(wait_cmp and wait_cmp.group(1) in ("Acquire", "SeqCst") and wait_cmp.group(2) == w_tok
-                   and "wait" in join_ops and "wait" in drop_ops and "wait_once" not in join_ops and "wait_once" not in drop_ops)
-    init_tok = re.search(r"AtomicU32::new\(\s*([A-Za-z_0-9]+)\s*\)", (bodies.get("init") or [""])[0])
+    def ana_of(name, owner=None, trait=None):
+        f = F.fn(name, owner, trait)
+        if f is None:
+            notes.append("function `%s` not found" % name)
+            return None
+        return Ana(F, name, expand(F, f))
+    # spawn: H side + the thread's entry closure (the closure that calls spawn's function parameter)
+    fspawn = F.fn("spawn")
+    H = E = None
+    if fspawn is None:
+        notes.append("function `spawn` not found")
+    else:
+        toks = expand(F, fspawn)
+        txt = compact(toks)
+        func_param = next((p for p in fspawn.params if p and re.search(r"(?<![\w.])%s\(\)" % re.escape(p), txt)), None)
+        epi = None
+        for n in all_nodes(parse_seq(toks), into_closures=True):
+            if n["t"] == "closure" and func_param and re.search(r"(?<![\w.])%s\(\)" % re.escape(func_param), compact(n["raw"])):
+                epi = n
+        if epi is None:
+            notes.append("the thread's entry closure (the closure that calls spawn's function parameter) not found")
+        else:
+            E = Ana(F, "spawn", epi["raw"], func_param=func_param, env_toks=toks)
+        names = [epi["name"]] if epi is not None and epi["name"] else re.findall(r"let (?:mut )?(\w+)=(?:move)?\|", txt)
+        H = Ana(F, "spawn", toks, func_param=None, closure_names=names)
+    J = ana_of("join", owner="JoinHandle")
+    D = ana_of("drop", owner="JoinHandle", trait="Drop")
+    P = ana_of("on_panic")
+    paths = {"spawn": H.paths() if H else [], "epilogue": E.paths() if E else [], "panic": P.paths() if P else [],
+             "join": J.paths() if J else [], "drop": D.paths() if D else []}
+    sites = {"join": J.sites if J else [], "drop": D.sites if D else [], "spawn": E.sites if E else [],
+             "panic": P.sites if P else [], "hspawn": H.sites if H else []}
+    loops = (J.loops if J else []) + (D.loops if D else [])
+
+    def one_value(vals):
+        vs = set(vals)
+        return vs.pop() if len(vs) == 1 else None
+    iv = [x for n in all_nodes(H.seq) if n["t"] == "text" for (nm, x) in n["ops"] if nm == "init_word"] if H else []
+    init_val = one_value([F.value_of(x) for x in iv])
+
+    def wait_val(a):
+        return one_value([F.value_of(s["vals"][0]) if s["vals"] else None for s in (a.sites if a else []) if s["op"] == "futex_wait_fast"])
+    sp, ep, dp = paths["spawn"], paths["epilogue"], paths["drop"]
+    pp = [p for p in paths["panic"] if has("is_thread", p)]
+    jd = paths["join"] + paths["drop"]
+    # a parameter is decided here only when every path it speaks about is understood; otherwise it is left open (None)
+    clone_ps = [p for p in sp if has("clone", p)]
+    mmap_ps = [p for p in sp if has("mmap", p)]
     derived = {
-        "checkClone": after_clone == ["check_clone", "drop_tls", "munmap", "drop_closure", "tsm_dealloc", "ret_err"],
-        "mmapCleanup": after_mmap == ["drop_closure", "tsm_dealloc", "ret_err"],
-        "initWord": value_of(init_tok.group(1) if init_tok else None, consts),
-        "joinExpect": value_of(j_tok, consts),
-        "dropExpect": value_of(d_tok, consts),
-        "setTidRet": "set_tid_0" in epilogue and "tsm_dealloc" in epilogue and epilogue.index("set_tid_0") < epilogue.index("tsm_dealloc"),
-        "recheck": recheck,
-        "dropValH": "drop_value" in drop_ops and "tsm_dealloc" in drop_ops and "wait" in drop_ops and drop_ops.index("wait") < drop_ops.index("drop_value") < drop_ops.index("tsm_dealloc"),
-        "dropValT": "drop_value" in epilogue and "tsm_dealloc" in epilogue and epilogue.index("drop_value") < epilogue.index("tsm_dealloc"),
-        "setTidPanic": "set_tid_0" in panic_ops and "tsm_dealloc" in panic_ops and panic_ops.index("set_tid_0") < panic_ops.index("tsm_dealloc"),
+        "checkClone": bool(p_check_clone(sp)) if clone_ps and all(understood(p) for p in clone_ps) else None,
+        "mmapCleanup": bool(p_mmap_cleanup(sp)) if mmap_ps and all(has("mmap_err", p) or has("mmap_ok", p) or has("try_return", p) for p in mmap_ps)
+                       and all(understood(p) for p in mmap_ps if not has("mmap_ok", p)) else None,
+        "setTidRet": bool(p_set_tid(ep)) if ep and all(understood(p) for p in ep) else None,
+        "dropValT": bool(p_drop_val_t(ep)) if ep and all(understood(p) for p in ep) else None,
+        "setTidPanic": bool(p_set_tid(pp)) if pp and all(understood(p) for p in pp) else None,
+        "dropValH": bool(p_drop_val_h(dp)) if dp and all(understood(p) for p in dp) else None,
+        # a wait outside any loop is understood (and is not a re-check); a loop of another shape is left to the running code
+        "recheck": (False if any(has("futex_wait", p) for p in jd) else
+                    None if (not loops or any(has("wait?", p) for p in jd)) else bool(p_recheck(loops))),
+        "initWord": init_val,
+        "joinExpect": wait_val(J),
+        "dropExpect": wait_val(D),
     }
-    sync_tab = S.generate(repo)   # also refreshes Gen/SyncSites.lean; gives the futex key kind of wait / wake
-    L = S.lean_str
+    return {"F": F, "paths": paths, "sites": sites, "loops": loops, "derived": derived, "notes": notes, "clone_asm": asm_syscalls(raw),
+            "unfinished": F.value_of("UNFINISHED"), "wait_private": wait_key_private(repo)}
+
+
+def lean_str(s):
+    return '"' + s.replace("\\", "\\\\").replace('"', '\\"') + '"'
+
+
+def emit(table, resolved=None, path=None):
+    """writes Gen/ThreadSites.lean.  `resolved`: {parameter: value} for the parameters the static extraction left open
+    (taken from the running code by checks/c05.py)."""
+    resolved = resolved or {}
+    L = lean_str
+    d = dict(table["derived"])
+    src = {}
+    for k in PARAMS + NUMS:
+        if d[k] is None and k in resolved and resolved[k] is not None:
+            d[k], src[k] = resolved[k], "runtime"
+        else:
+            src[k] = "static" if d[k] is not None else "unknown"
+    wp = table["wait_private"]
+    if wp is None and resolved.get("waitPrivate") is not None:
+        wp, src["waitPrivate"] = resolved["waitPrivate"], "runtime"
+    else:
+        src["waitPrivate"] = "static" if wp is not None else "unknown"
     lines = ["/- GENERATED by checks/thread_extract.py from /repo/tiny-std/src/thread/spawn.rs. Do not edit. -/",
              "namespace TinyVerif.Gen.Thread", "",
              "inductive Ord where | relaxed | acquire | release | acqrel | seqcst", "  deriving Repr, DecidableEq", "",
              "structure Site where", "  fn : String", "  op : String", "  loc : String", "  vals : List String", "  ords : List Ord",
-             "  deriving Repr, DecidableEq", ""]
-    for name in ["join", "drop", "spawn", "panic", "wait"]:
+             "  deriving Repr, DecidableEq", "",
+             "/-- protocol operations and branch decisions; `unknown` = something the extractor did not understand -/",
+             "inductive Op where", "  | " + " | ".join(LEAN_OP.get(o, o) for o in VOCAB) + " | unknown", "  deriving Repr, DecidableEq", "",
+             "/-- the iteration paths of one exit-wait loop, the value its load is compared with, the value it waits on -/",
+             "structure WaitLoop where", "  iter : List (List Op)", "  cmp : List String", "  arg : List String", "  deriving Repr, DecidableEq", ""]
+    for name in ["join", "drop", "spawn", "panic", "hspawn"]:
         lines.append("def %sSites : List Site := [" % name)
         lines.append(",\n".join("  ⟨%s, %s, %s, [%s], [%s]⟩" % (L(s["fn"]), L(s["op"]), L(s["loc"]), ", ".join(L(v) for v in s["vals"]),
-                                                             ", ".join("." + o for o in s["ords"])) for s in tables[name]))
+                                                             ", ".join("." + o for o in s["ords"])) for s in table["sites"][name]))
         lines.append("]")
         lines.append("")
-    for name, seq in [("spawnOps", spawn_ops), ("panicOps", panic_ops), ("joinOps", join_ops), ("dropOps", drop_ops)]:
-        lines.append("def %s : List String := [%s]" % (name, ", ".join(L(x) for x in seq)))
-    lines.append("def cloneAsmSyscalls : List Nat := [%s]" % ", ".join(str(x) for x in clone_asm))
-    lines.append("def unfinished : Option Nat := %s" % ("none" if init_word is None else "some %d" % init_word))
-    for k in ["checkClone", "mmapCleanup", "setTidRet", "setTidPanic", "dropValH", "dropValT", "recheck"]:
-        lines.append("def %s : Bool := %s" % (k, "true" if derived[k] else "false"))
-    for k in ["initWord", "joinExpect", "dropExpect"]:
-        # an operand the extractor cannot resolve becomes a value no futex word ever holds: the Lean check then fails
-        lines.append("def %s : Nat := %d" % (k, 4294967295 if derived[k] is None else derived[k]))
-    lines.append("def futexWaitPrivate : Bool := %s" % ("true" if sync_tab["wait_private"] else "false"))
+    for name in ["spawn", "epilogue", "panic", "join", "drop"]:
+        lines.append("def %sPaths : List (List Op) := [" % name)
+        lines.append(",\n".join("  [%s]" % ", ".join(lean_op(x) for x in p) for p in table["paths"][name]))
+        lines.append("]")
+        lines.append("")
+    lines.append("def waitLoops : List WaitLoop := [")
+    lines.append(",\n".join("  ⟨[%s], [%s], [%s]⟩" % (", ".join("[%s]" % ", ".join(lean_op(x) for x in it) for it in sorted(list(x) for x in l["iter"])),
+                                                    ", ".join(L(x) for x in (l["cmp"] or [])), ", ".join(L(x) for x in (l["arg"] or []))) for l in table["loops"]))
+    lines.append("]")
+    lines.append("")
+    lines.append("def cloneAsmSyscalls : List Nat := [%s]" % ", ".join(str(x) for x in table["clone_asm"] if x >= 0))
+    lines.append("def unfinished : Option Nat := %s" % ("none" if table["unfinished"] is None else "some %d" % table["unfinished"]))
+    lines.append("/- `xStatic = true`: x was decided from the path lists above (Props/C05 `gen_params_from_paths` re-derives it);")
+    lines.append("   `false`: the source was not understood there, x is what the running code was observed to do (checks/c05.py) -/")
+    for k in PARAMS:
+        lines.append("def %s : Bool := %s" % (k, "true" if d[k] else "false"))
+        lines.append("def %sStatic : Bool := %s" % (k, "true" if src[k] == "static" else "false"))
+    for k in NUMS:
+        # an operand that can be resolved neither statically nor at run time becomes a value no futex word ever holds: the Lean check then fails
+        lines.append("def %s : Nat := %d" % (k, 4294967295 if d[k] is None else d[k]))
+    lines.append("def futexWaitPrivate : Bool := %s" % ("true" if wp or wp is None else "false"))
     lines += ["", "end TinyVerif.Gen.Thread", ""]
     text = "\n".join(lines)
-    path = os.path.join(C.LEAN, "TinyVerif", "Gen", "ThreadSites.lean")
+    path = path or os.path.join(C.LEAN, "TinyVerif", "Gen", "ThreadSites.lean")
     if not os.path.exists(path) or open(path).read() != text:
         open(path, "w").write(text)
-    return {"tables": tables, "spawn_ops": spawn_ops, "panic_ops": panic_ops, "join_ops": join_ops, "drop_ops": drop_ops,
-            "clone_asm": clone_asm, "derived": derived, "consts": consts, "wait_private": sync_tab["wait_private"]}
+    out = dict(table)
+    out["derived"], out["src"], out["wait_private"] = d, src, wp
+    return out
+
+
+def shapes(table):
+    """the shape obligations, evaluated here as they are in Lean (for the evidence; Lean decides)"""
+    P, S = table["paths"], table["sites"]
+    return {"spawn": s_spawn(P["spawn"], S["hspawn"]), "epilogue": s_epilogue(P["epilogue"]), "panic": s_panic(P["panic"]),
+            "join": s_join(P["join"], S["join"]), "drop": s_drop(P["drop"])}
+
+
+def generate(repo=None, resolved=None):
+    return emit(analyse(repo), resolved)
 
 
 if __name__ == "__main__":
     import json
-    print(json.dumps(generate(), indent=1, default=str))
+    import sys
+    t = analyse(sys.argv[1] if len(sys.argv) > 1 else None)
+    print(json.dumps({k: t[k] for k in ("paths", "sites", "loops", "derived", "notes", "clone_asm", "unfinished", "wait_private")}, indent=1, default=str))
+    print("shapes", shapes(t))
